@@ -9,6 +9,7 @@ event models are integrated).  Hidden state of the Python objects is decided by 
 -/
 import SpiceEv.Proofs.ScenarioRun
 import SpiceEv.Proofs.StrategiesFrame
+import SpiceEv.Proofs.Relabel
 set_option linter.unusedSectionVars false
 namespace SpiceEv
 variable {α : Type} [Field α] [LinearOrder α] [IsStrictOrderedRing α]
@@ -112,5 +113,45 @@ example : UniqueIds toyW ∧ Unrelated toyW toyX ∧
   decide +kernel
 
 end Isolation
+
+/-! ### time relabelling: only differences of timestamps, times of day and weekdays are seen -/
+
+section Relabelling
+open Relabel
+
+/-- **Event buckets.** Relabel every timestamp by `c` (start of the simulation, every event's signal
+time — and whatever else `f` does to the event, e.g. moving its start time and the times in its
+payload): `get_event_steps` puts the relabelled events into the same buckets, in the same order,
+with the same counters, and raises in the same cases. -/
+theorem C16_event_buckets_shift {γ : Type} (f : Event γ → Event γ) (c : Int)
+    (hf : ∀ e, (f e).signal = e.signal + c) (start : Int) (n : Nat) (Δ : Int) (all : List (Event γ)) :
+    getEventSteps (start + c) n Δ (all.map f) = (getEventSteps start n Δ all).map (mapSteps f) :=
+  getEventSteps_shift f c hf start n Δ all
+
+/-- **Peak-load / flex windows.** A shift by `k` whole weeks that keeps the date in the same season
+(for every season of the table: inside before iff inside after) does not change
+`datetime_within_time_window`. -/
+theorem C16_window_shift (dt : DateTime) (k : Int) (seasons : List Season) (level : String)
+    (hs : ∀ s ∈ seasons, (decide (s.start ≤ dt.date) && decide (dt.date ≤ s.stop))
+        = (decide (s.start ≤ dt.date + 7 * k) && decide (dt.date + 7 * k ≤ s.stop))) :
+    datetimeWithinTimeWindow (dt.add (7 * k * usPerDay)) seasons level
+      = datetimeWithinTimeWindow dt seasons level :=
+  window_shift dt k seasons level hs
+
+/-- **Core standing time.** A shift by `k` whole weeks (the holiday dates of the scenario moving
+along) does not change `dt_within_core_standing_time`: weekday and time of day are kept. -/
+theorem C16_core_shift (dt : DateTime) (k : Int) (cst : Option CoreStandingTime) :
+    dtWithinCoreStandingTime (dt.add (7 * k * usPerDay)) (cst.map (shiftHolidays (7 * k)))
+      = dtWithinCoreStandingTime dt cst :=
+  core_shift dt k cst
+
+/-- Non-vacuity of the season hypothesis: Monday 2020-01-06 shifted by three weeks stays inside a
+season covering the year 2020 (ordinals 737425 … 737790) and outside one that ended in 2019. -/
+example : ∀ s ∈ [(⟨737425, 737790, none⟩ : Season), ⟨737060, 737424, none⟩],
+    (decide (s.start ≤ (737430 : Int)) && decide ((737430 : Int) ≤ s.stop))
+      = (decide (s.start ≤ 737430 + 7 * 3) && decide ((737430 : Int) + 7 * 3 ≤ s.stop)) := by
+  decide
+
+end Relabelling
 
 end SpiceEv
